@@ -239,7 +239,7 @@ Proof. split; [exact toy_pre_idem|]. split; reflexivity. Qed.
 (** ---- container_irrelevant ----------------------------------------------------------------------- *)
 
 (** scalar / list / 1-D and 2-D ndarray / Series: a validator sees only the shape of the coerced
-    array, for all four usages and in every state *)
+    array, for all six usages, update and set_reference, in every state *)
 Theorem C14_container_irrelevant : forall k r x y, is_df x = false -> is_df y = false ->
   user_coerce k x = user_coerce k y ->
   user_early k x = user_early k y /\ forall st, call_validator k r st x = call_validator k r st y.
